@@ -98,7 +98,7 @@ for e in ENGINES:
 
 PREEMPT_LEVEL = (" A second part (flow-preempt) adds statement-level scheduling points to the engine files named in lib/checks.py (lib/pointgen rewrites the overlay copy) and "
                  "sweeps a single preemption over every dynamic statement occurrence of small 1x1 scenarios, exploring the environment schedule around it with the remaining deviation budget.")
-for _id in ("C01", "C02", "C04", "C05", "C06", "C09", "C11", "C12", "C13"):
+for _id in ("C01", "C02", "C04", "C05", "C06", "C07", "C09", "C11", "C12", "C13", "C16"):
     TEXT[_id]["technique"] += " + single-preemption sweep over statement-level scheduling points (part flow-preempt)"
     TEXT[_id]["level"] += PREEMPT_LEVEL
 
